@@ -17,6 +17,8 @@
 #include "heap_allocator.hpp"
 #include "joint_allocator.hpp"
 #include "smart_ptr.hpp"
+#include "memory_pool.hpp"
+#include "memory_stack.hpp"
 
 using namespace foonathan::memory;
 using namespace verif;
@@ -590,6 +592,62 @@ static void sweep(AllocState& st, bool thorough, Rng& g)
     }
 }
 
+//=== the helpers over the library's own allocators: after a rollback the allocator is exactly as usable as before ===//
+template <class Pool>
+static void real_pool_cases(const char* name, Rng& g, bool thorough)
+{
+    using E = Elem<16, 8>;
+    Pool        pool(sizeof(E), 4096);
+    std::size_t ns = pool.node_size();
+    auto        drainable = [&]
+    { // nodes obtainable without growing, counted by actually taking them
+        std::vector<void*> got;
+        while (void* p = pool.try_allocate_node())
+            got.push_back(p);
+        for (auto it = got.rbegin(); it != got.rend(); ++it)
+            pool.deallocate_node(*it);
+        return got.size();
+    };
+    for (int round = 0; round < (thorough ? 12 : 4); ++round)
+    {
+        // fragment the free list: singles allocated and released in a seeded order
+        std::vector<std::unique_ptr<E, allocator_deleter<E, Pool>>> singles;
+        quiet = true;
+        for (int i = 0; i < 6; ++i)
+            singles.push_back(allocate_unique<E>(pool));
+        for (int i = 0; i < 4; ++i)
+            singles.erase(singles.begin() + long(g.below(singles.size())));
+        quiet = false;
+        for (std::size_t n = 1; n <= 8; ++n)
+            for (long k = -1; k < long(n); ++k)
+            {
+                std::size_t cap0 = pool.capacity_left(), nodes0 = drainable();
+                reset_case(0, k);
+                bool threw = false;
+                try
+                {
+                    auto p = allocate_unique<E[]>(pool, n);
+                    p.reset();
+                }
+                catch (ElemFail&)
+                {
+                    threw = true;
+                }
+                ++n_cases;
+                if (threw != (k >= 0))
+                    fail(fmt("%s: allocate_unique<T[]>(%zu) failing at %ld: exception %s", name, n, k, threw ? "unexpected" : "lost"));
+                std::size_t cap1 = pool.capacity_left(), nodes1 = drainable();
+                if (cap1 != cap0 || nodes1 != nodes0)
+                    fail(fmt("%s: after allocate_unique<T[]>(%zu) %s the pool offers %zu nodes / capacity_left %zu, before %zu / %zu (node size %zu)",
+                             name, n, k >= 0 ? fmt("with a constructor failure at %ld", k).c_str() : "and reset()", nodes1, cap1, nodes0, cap0, ns));
+            }
+        quiet = true;
+        singles.clear();
+        quiet = false;
+    }
+    LOG.clear();
+}
+
 int main(int argc, char** argv)
 {
     bool               thorough = argc > 1 && std::atoi(argv[1]) != 0;
@@ -607,6 +665,33 @@ int main(int argc, char** argv)
         sweep<Elem<3, 1>>(st, thorough, g);
         sweep<Elem<6, 2>>(st, thorough, g);
         sweep<Elem<4, 4>>(st, thorough, g);
+    }
+    real_pool_cases<memory_pool<node_pool>>("memory_pool<node_pool>", g, thorough);
+    real_pool_cases<memory_pool<array_pool>>("memory_pool<array_pool>", g, thorough);
+    { // memory_stack: the deleter cannot give memory back (stack), but rollback must destroy and propagate all the same
+        memory_stack<> stack(4096);
+        using E = Elem<8, 8>;
+        for (std::size_t n = 1; n <= 6; ++n)
+            for (long k = -1; k < long(n); ++k)
+            {
+                reset_case(0, k);
+                auto m = stack.top();
+                bool threw = false;
+                try
+                {
+                    auto p = allocate_unique<E[]>(stack, n);
+                    p.reset();
+                }
+                catch (ElemFail&)
+                {
+                    threw = true;
+                }
+                stack.unwind(m);
+                ++n_cases;
+                if (threw != (k >= 0) || !registry().empty())
+                    fail(fmt("memory_stack: allocate_unique<T[]>(%zu) failing at %ld: %s", n, k, threw == (k >= 0) ? "elements left alive" : "wrong exception behaviour"));
+            }
+        LOG.clear();
     }
     // swap / move of joint_ptrs: every block goes back with its own size (checked by the instrumented allocator)
     {
